@@ -293,6 +293,42 @@ def run(ctx):
                    True, f'{nl} loops: no value computed from an object before a loop is reused '
                    f'in the loop that rewrites the object', where(f))
     ctx.floor('R20e', 'loops examined', n_loops, 6)
+    # ---- R20f: a pass that hands out labels respects the labels already handed out -------
+    n_sites = 0
+    for loop in [n for n in ast.walk(ra.node) if isinstance(n, ast.For)]:
+        if not isinstance(loop.target, ast.Name):
+            continue
+        lv = loop.target.id
+        body_defs = {}
+        for n in ast.walk(loop):
+            if isinstance(n, ast.Assign) and len(n.targets) == 1 and \
+                    isinstance(n.targets[0], ast.Name):
+                body_defs.setdefault(n.targets[0].id, []).append(n.value)
+        for n in ast.walk(loop):
+            if isinstance(n, ast.Assign) and len(n.targets) == 1 and \
+                    isinstance(n.targets[0], ast.Subscript) and \
+                    isinstance(n.targets[0].value, ast.Name) and \
+                    isinstance(n.value, ast.Name) and n.value.id == lv:
+                X = n.targets[0].value.id
+                seen, work = set(), [n.targets[0].slice]
+                while work:
+                    e = work.pop()
+                    for nm in {x.id for x in ast.walk(e) if isinstance(x, ast.Name)}:
+                        if nm not in seen:
+                            seen.add(nm)
+                            work.extend(body_defs.get(nm, []))
+                n_sites += 1
+                ok = X in seen
+                ctx.ob('R20f', f'_reassign_precisions: "{ast.unparse(n)}" respects earlier claims',
+                       ok, f'the channels written are selected from the current content of {X}'
+                       if ok else
+                       f'the channels given label {lv} are selected from '
+                       f'"{ast.unparse(n.targets[0].slice)}" = '
+                       f'{[ast.unparse(d)[:60] for d in body_defs.get(ast.unparse(n.targets[0].slice), [])]}'
+                       f', which does not depend on the current content of {X}: a channel that an '
+                       f'earlier iteration already gave to another label is taken again, so that '
+                       f'label ends below its target count', f'{ra.module.relpath}:{n.lineno}')
+    ctx.floor('R20f', 'label-assignment sites', n_sites, 2)
     ctx.assume('shares are multiples of 1/C represented in float32; argsort returns a permutation')
     ctx.note('not decided: that _reassign_precisions meets every count for every score matrix '
              '(greedy algorithm correctness)')
